@@ -165,8 +165,8 @@ func c11Objects(ps []geometry.Point) []geojson.Object {
 	if len(ps) == 1 {
 		out = append(out, geojson.NewPoint(ps[0]), geojson.NewSimplePoint(ps[0]), geojson.NewPointZ(ps[0], 1), geojson.NewFeature(geojson.NewPoint(ps[0]), ""))
 	}
-	ls := geojson.NewLineString(geometry.NewLine(ps, nil))
-	pg := geojson.NewPolygon(geometry.NewPoly(ps, nil, nil))
+	ls := geojson.NewLineString(newLineScribbled(ps, nil))
+	pg := geojson.NewPolygon(newPolyScribbled(ps, nil, nil))
 	out = append(out, ls, pg, geojson.NewMultiPoint(ps), geojson.NewFeature(ls, `{"id":1}`))
 	if len(ps) == 2 {
 		r := geometry.Rect{Min: geometry.Point{X: math.Min(ps[0].X, ps[1].X), Y: math.Min(ps[0].Y, ps[1].Y)}, Max: geometry.Point{X: math.Max(ps[0].X, ps[1].X), Y: math.Max(ps[0].Y, ps[1].Y)}}
@@ -179,28 +179,28 @@ func c11Objects(ps []geometry.Point) []geojson.Object {
 		}
 		out = append(out, geojson.NewGeometryCollection(pts))
 		// empties mixed with non-empties; the leading child is empty and carries the first position
-		head := geojson.NewLineString(geometry.NewLine(ps[:1], nil))
-		rest := geojson.NewLineString(geometry.NewLine(ps[1:], nil))
+		head := geojson.NewLineString(newLineScribbled(ps[:1], nil))
+		rest := geojson.NewLineString(newLineScribbled(ps[1:], nil))
 		out = append(out, geojson.NewGeometryCollection([]geojson.Object{head, rest, geojson.NewPoint(ps[len(ps)-1])}))
 		out = append(out, geojson.NewFeatureCollection([]geojson.Object{geojson.NewFeature(rest, ""), geojson.NewGeometryCollection(nil), geojson.NewPoint(ps[0])}))
-		out = append(out, geojson.NewMultiLineString([]*geometry.Line{geometry.NewLine(ps[:1], nil), geometry.NewLine(ps, nil)}))
-		out = append(out, geojson.NewMultiPolygon([]*geometry.Poly{geometry.NewPoly(ps, nil, nil), geometry.NewPoly(ps[1:], nil, nil)}))
+		out = append(out, geojson.NewMultiLineString([]*geometry.Line{newLineScribbled(ps[:1], nil), newLineScribbled(ps, nil)}))
+		out = append(out, geojson.NewMultiPolygon([]*geometry.Poly{newPolyScribbled(ps, nil, nil), newPolyScribbled(ps[1:], nil, nil)}))
 		// a later child whose box extends the running union on both sides of an axis
-		all := geojson.NewLineString(geometry.NewLine(ps, nil))
+		all := geojson.NewLineString(newLineScribbled(ps, nil))
 		out = append(out, geojson.NewGeometryCollection([]geojson.Object{geojson.NewPoint(ps[0]), all}))
 		out = append(out, geojson.NewFeatureCollection([]geojson.Object{geojson.NewFeature(geojson.NewPoint(ps[len(ps)-1]), ""), geojson.NewPoint(ps[0]), geojson.NewFeature(all, "")}))
-		out = append(out, geojson.NewMultiLineString([]*geometry.Line{geometry.NewLine(ps[:2], nil), geometry.NewLine(ps, nil)}))
+		out = append(out, geojson.NewMultiLineString([]*geometry.Line{newLineScribbled(ps[:2], nil), newLineScribbled(ps, nil)}))
 		if len(ps) >= 3 {
-			out = append(out, geojson.NewMultiPolygon([]*geometry.Poly{geometry.NewPoly(ps[:3], nil, nil), geometry.NewPoly(ps, nil, nil)}))
+			out = append(out, geojson.NewMultiPolygon([]*geometry.Poly{newPolyScribbled(ps[:3], nil, nil), newPolyScribbled(ps, nil, nil)}))
 		}
 	}
 	// objects derived from other objects: translated copies (appended last:
 	// known findings refer to objects by index)
 	for _, d := range [][2]float64{{0, 0}, {1, -2}, {0.1, 0.3}} {
-		out = append(out, geojson.NewLineString(geometry.NewLine(ps, nil).Move(d[0], d[1])))
-		out = append(out, geojson.NewPolygon(geometry.NewPoly(ps, nil, nil).Move(d[0], d[1])))
+		out = append(out, geojson.NewLineString(newLineScribbled(ps, nil).Move(d[0], d[1])))
+		out = append(out, geojson.NewPolygon(newPolyScribbled(ps, nil, nil).Move(d[0], d[1])))
 		if len(ps) >= 2 {
-			hole := geometry.NewPoly(ps, [][]geometry.Point{ps[1:]}, nil).Move(d[0], d[1])
+			hole := newPolyScribbled(ps, [][]geometry.Point{ps[1:]}, nil).Move(d[0], d[1])
 			out = append(out, geojson.NewMultiPolygon([]*geometry.Poly{hole}))
 		}
 	}
